@@ -122,15 +122,125 @@ pub proof fn lemma_lu_route_exact(a: Seq<f64>, f: Seq<f64>, piv: Seq<i32>, n: in
         assert forall|i: int| 0 <= i < n implies asum(a, n, #[trigger] piv[i] as int, x, n) == rv(b[piv[i] as int]) by { theorem_lu_solves(a, f, piv, n, b, y, x, i); }
     }
 }
+
 '''
-SPEC = t.SPEC + c01.SQ_UNIQUE + t.CHOL_SPEC + t.CHOL2_SPEC + t.LUS_SPEC + c01.LU_ONLY_SPEC + rec.REC_SPEC + EXACT_SPEC + r'''
+CHOL_EXACT_SPEC = r'''
+// ---- the Cholesky route is exact over the reals (for the symmetric matrix given by A's lower triangle)
+pub open spec fn imax(a: int, b: int) -> int { if a >= b { a } else { b } }
+pub proof fn lemma_csum_comm(l: Seq<f64>, n: int, i: int, j: int, kk: int)
+    ensures csum(l, n, i, j, kk) == csum(l, n, j, i, kk) decreases kk
+{ if kk > 0 { lemma_csum_comm(l, n, i, j, kk - 1); let p = rv(at2(l, n, j, kk - 1)); let q = rv(at2(l, n, i, kk - 1)); assert(p * q == q * p) by(nonlinear_arith); } }
+/// entry (i,c) of L L^T: sum over t <= min(i,c) of l[i,t] * l[c,t]
+pub open spec fn llt(l: Seq<f64>, n: int, i: int, c: int) -> real { csum(l, n, c, i, imin(i, c) + 1) }
+/// entry (i,c) of the symmetric matrix defined by the lower triangle of a
+pub open spec fn sym_low(a: Seq<f64>, n: int, i: int, c: int) -> real { rv(at2(a, n, imax(i, c), imin(i, c))) }
+pub proof fn lemma_llt_is_a(a: Seq<f64>, l: Seq<f64>, n: int, i: int, c: int)
+    requires chol_rows(a, l, n, n), 0 <= i < n, 0 <= c < n
+    ensures llt(l, n, i, c) == sym_low(a, n, i, c)
+{
+    if c <= i {
+        assert(chol_eq(a, l, n, i, c));
+        lemma_csum_comm(l, n, c, i, c);
+        let p = rv(at2(l, n, i, c)); let q = rv(at2(l, n, c, c)); assert(p * q == q * p) by(nonlinear_arith);
+    } else {
+        assert(chol_eq(a, l, n, c, i));
+    }
+}
+/// row i of (symmetric completion of a) times x, first cc columns
+pub open spec fn ssum(a: Seq<f64>, n: int, i: int, x: Seq<f64>, cc: int) -> real decreases cc
+{ if cc <= 0 { 0real } else { ssum(a, n, i, x, cc - 1) + sym_low(a, n, i, cc - 1) * rv(x[cc - 1]) } }
+pub open spec fn gsum2(l: Seq<f64>, n: int, i: int, x: Seq<f64>, cc: int) -> real decreases cc
+{ if cc <= 0 { 0real } else { gsum2(l, n, i, x, cc - 1) + llt(l, n, i, cc - 1) * rv(x[cc - 1]) } }
+pub proof fn lemma_s_g(a: Seq<f64>, l: Seq<f64>, n: int, i: int, x: Seq<f64>, cc: int)
+    requires chol_rows(a, l, n, n), 0 <= i < n, 0 <= cc <= n
+    ensures ssum(a, n, i, x, cc) == gsum2(l, n, i, x, cc) decreases cc
+{ if cc > 0 { lemma_s_g(a, l, n, i, x, cc - 1); lemma_llt_is_a(a, l, n, i, cc - 1); } }
+/// sum over t < kk of l[i,t] * (sum over t <= c < cc of l[c,t] x_c)
+pub open spec fn osum2(l: Seq<f64>, n: int, i: int, x: Seq<f64>, cc: int, kk: int) -> real decreases kk
+{ if kk <= 0 { 0real } else { osum2(l, n, i, x, cc, kk - 1) + rv(at2(l, n, i, kk - 1)) * tsum_t(l, n, x, kk - 1, kk - 1, cc) } }
+pub proof fn lemma_osum2_step(l: Seq<f64>, n: int, i: int, x: Seq<f64>, cc: int, kk: int)
+    requires 0 <= kk, 0 <= cc
+    ensures osum2(l, n, i, x, cc + 1, kk) == osum2(l, n, i, x, cc, kk) + csum(l, n, cc, i, imin(kk, cc + 1)) * rv(x[cc])
+    decreases kk
+{
+    if kk > 0 {
+        lemma_osum2_step(l, n, i, x, cc, kk - 1);
+        let k = kk - 1;
+        let lik = rv(at2(l, n, i, k)); let inner = tsum_t(l, n, x, k, k, cc); let xc = rv(x[cc]); let lck = rv(at2(l, n, cc, k));
+        if cc >= k {
+            assert(tsum_t(l, n, x, k, k, cc + 1) == inner + lck * xc);
+            assert(imin(kk, cc + 1) == kk && imin(kk - 1, cc + 1) == kk - 1);
+            let c0 = csum(l, n, cc, i, kk - 1);
+            assert(csum(l, n, cc, i, kk) == c0 + lik * lck);
+            assert(lik * (inner + lck * xc) + c0 * xc == lik * inner + (c0 + lik * lck) * xc) by(nonlinear_arith);
+        } else {
+            assert(tsum_t(l, n, x, k, k, cc + 1) == 0real); assert(inner == 0real);
+            assert(imin(kk, cc + 1) == cc + 1 && imin(kk - 1, cc + 1) == cc + 1);
+            assert(lik * 0real == 0real) by(nonlinear_arith);
+        }
+    } else { assert(csum(l, n, cc, i, 0) == 0real); assert(0real * rv(x[cc]) == 0real) by(nonlinear_arith); }
+}
+pub proof fn lemma_osum2_zero(l: Seq<f64>, n: int, i: int, x: Seq<f64>, kk: int) requires 0 <= kk
+    ensures osum2(l, n, i, x, 0, kk) == 0real decreases kk
+{ if kk > 0 { lemma_osum2_zero(l, n, i, x, kk - 1); assert(tsum_t(l, n, x, kk - 1, kk - 1, 0) == 0real); assert(rv(at2(l, n, i, kk - 1)) * 0real == 0real) by(nonlinear_arith); } }
+pub proof fn lemma_g2_split(l: Seq<f64>, n: int, i: int, x: Seq<f64>, cc: int)
+    requires 0 <= i, 0 <= cc
+    ensures gsum2(l, n, i, x, cc) == osum2(l, n, i, x, cc, i + 1) decreases cc
+{
+    if cc > 0 {
+        let c = cc - 1;
+        lemma_g2_split(l, n, i, x, c);
+        lemma_osum2_step(l, n, i, x, c, i + 1);
+        assert(imin(i + 1, c + 1) == imin(i, c) + 1);
+    } else { lemma_osum2_zero(l, n, i, x, i + 1); }
+}
+pub proof fn lemma_osum2_y(l: Seq<f64>, n: int, i: int, x: Seq<f64>, y: Seq<f64>, kk: int)
+    requires 0 <= kk <= n, forall|k: int| 0 <= k < kk ==> tsum_t(l, n, x, k, k, n) == rv(#[trigger] y[k])
+    ensures osum2(l, n, i, x, n, kk) == tsum(l, n, y, i, 0, kk) decreases kk
+{ if kk > 0 { lemma_osum2_y(l, n, i, x, y, kk - 1); assert(tsum_t(l, n, x, kk - 1, kk - 1, n) == rv(y[kk - 1])); } }
+pub proof fn lemma_tsum_t_low(m: Seq<f64>, n: int, x: Seq<f64>, i: int, lo: int, hi: int) requires lo < hi
+    ensures tsum_t(m, n, x, i, lo, hi) == rv(at2(m, n, lo, i)) * rv(x[lo]) + tsum_t(m, n, x, i, lo + 1, hi) decreases hi - lo
+{ if hi > lo + 1 { lemma_tsum_t_low(m, n, x, i, lo, hi - 1); } else { assert(tsum_t(m, n, x, i, lo, lo) == 0real); assert(tsum_t(m, n, x, i, lo + 1, lo + 1) == 0real); } }
+/// L L^T = A on the lower triangle, L y = b, L^T x = y  ==>  row i of  S x = b  where S is the symmetric matrix given by A's lower triangle
+pub proof fn theorem_chol_solves(a: Seq<f64>, l: Seq<f64>, n: int, b: Seq<f64>, y: Seq<f64>, x: Seq<f64>, i: int)
+    requires chol_rows(a, l, n, n), 0 <= i < n, y.len() == n,
+             forall|k: int| 0 <= k < n ==> #[trigger] lower_row(l, n, y, b, k),
+             forall|k: int| 0 <= k < n ==> rv(at2(l, n, k, k)) * rv(x[k]) + #[trigger] tsum_t(l, n, x, k, k + 1, n) == rv(y[k]),
+    ensures ssum(a, n, i, x, n) == rv(b[i])
+{
+    lemma_s_g(a, l, n, i, x, n);
+    lemma_g2_split(l, n, i, x, n);
+    assert forall|k: int| 0 <= k < n implies tsum_t(l, n, x, k, k, n) == rv(#[trigger] y[k]) by {
+        lemma_tsum_t_low(l, n, x, k, k, n);
+        assert(rv(at2(l, n, k, k)) * rv(x[k]) + tsum_t(l, n, x, k, k + 1, n) == rv(y[k]));
+    }
+    lemma_osum2_y(l, n, i, x, y, i + 1);
+    assert(lower_row(l, n, y, b, i));
+    assert(tsum(l, n, y, i, 0, i + 1) == tsum(l, n, y, i, 0, i) + rv(at2(l, n, i, i)) * rv(y[i]));
+}
+/// the Cholesky route is exact over the reals: every row of S x = b holds
+pub open spec fn chol_exact(a: Seq<f64>, n: int, b: Seq<f64>, x: Seq<f64>) -> bool {
+    forall|i: int| 0 <= i < n ==> #[trigger] ssum(a, n, i, x, n) == rv(b[i])
+}
+pub proof fn lemma_chol_route_exact(a: Seq<f64>, l: Seq<f64>, n: int, b: Seq<f64>, x: Seq<f64>)
+    requires chol_rows(a, l, n, n), chol_solved(l, n, x, b)
+    ensures chol_exact(a, n, b, x)
+{
+    let y = choose|y: Seq<f64>| y.len() == n
+        && (forall|i: int| 0 <= i < n && rv(at2(l, n, i, i)) != 0real ==> #[trigger] lower_row(l, n, y, b, i))
+        && (forall|i: int| 0 <= i < n && rv(at2(l, n, i, i)) != 0real ==> rv(at2(l, n, i, i)) * rv(x[i]) + #[trigger] tsum_t(l, n, x, i, i + 1, n) == rv(y[i]));
+    assert forall|k: int| 0 <= k < n implies rv(at2(l, n, k, k)) != 0real by { assert(rv(at2(l, n, k, k)) > 0real); }
+    assert forall|i: int| 0 <= i < n implies #[trigger] ssum(a, n, i, x, n) == rv(b[i]) by { theorem_chol_solves(a, l, n, b, y, x, i); }
+}
+'''
+SPEC = t.SPEC + c01.SQ_UNIQUE + t.CHOL_SPEC + t.CHOL2_SPEC + t.LUS_SPEC + c01.LU_ONLY_SPEC + rec.REC_SPEC + EXACT_SPEC + CHOL_EXACT_SPEC + r'''
 
 /// the test that routes a system to the Cholesky solver
 pub open spec fn pd_test(m: Seq<f64>, n: int) -> bool { sym_eps(m, n) && diag_pos(m, n) }
 /// x solves the system with matrix a and right-hand side b by one of the two routes (property C01: the route is
 /// Cholesky exactly when the test passes and the factorisation meets no non-positive pivot)
 pub open spec fn solved_by_route(a: Seq<f64>, n: int, b: Seq<f64>, x: Seq<f64>) -> bool {
-    (pd_test(a, n) && (exists|l: Seq<f64>| l.len() == n * n && #[trigger] chol_rows(a, l, n, n) && chol_zero(l, n, n, 0) && chol_solved(l, n, x, b)))
+    (pd_test(a, n) && (exists|l: Seq<f64>| l.len() == n * n && #[trigger] chol_rows(a, l, n, n) && chol_zero(l, n, n, 0) && chol_solved(l, n, x, b)) && chol_exact(a, n, b, x))
     || ((!pd_test(a, n) || !no_bad_pivot(a, n)) && (exists|f: Seq<f64>, piv: Seq<i32>| f.len() == n * n && is_perm32(piv, n) && bounded(f, n, n) && factored(a, f, piv, n, n) && #[trigger] lu_solved(f, n, piv, b, x) && lu_exact(a, n, b, x, f, piv)))
 }
 '''
@@ -152,7 +262,7 @@ UNITS = [
 ]
 
 # ---------------------------------------------------------------- solve: routing + composition
-SOLVE_HINT_CHOL = ('({ proof { assert(chol_post(a@, chol, n as int)); } let x_ = cholesky_solve(&l, b); proof { assert(chol_rows(a@, l@, n as int, n as int)); assert(solved_by_route(a@, n as int, b@, x_@)); } x_ })')
+SOLVE_HINT_CHOL = ('({ proof { assert(chol_post(a@, chol, n as int)); } let x_ = cholesky_solve(&l, b); proof { assert(chol_rows(a@, l@, n as int, n as int)); lemma_chol_route_exact(a@, l@, n as int, b@, x_@); assert(solved_by_route(a@, n as int, b@, x_@)); } x_ })')
 SOLVE_HINT_LU = ('({ let x_ = lu_solve(&lu, &piv, b); proof { '
                  'if pd_ { assert(chol_post(a@, chol, n as int)); } '
                  'assert(is_perm32(piv@, n as int)); assert(bounded(lu@, n as int, n as int)); assert(factored(a@, lu@, piv@, n as int, n as int)); assert(lu_solved(lu@, n as int, piv@, b@, x_@)); lemma_lu_route_exact(a@, lu@, piv@, n as int, b@, x_@); assert(solved_by_route(a@, n as int, b@, x_@)); } x_ })')
@@ -167,7 +277,8 @@ solve = Fn(U + 'solve', ret='x', level='L1', valid='a@.len() == b@.len() * b@.le
 UNITS.append(Unit('C01_solve', ('C01', 'C11'), [solve], use=[c01.is_square, is_pd, t.try_chol, t.chol_solve, rec.lu_full, t.lu_solve], types=core.TYPES, type_spec=core.TYPE_SPEC,
                   spec=SPEC, preludes=PRE, broadcast=BC, level='L1', rlimit=100,
                   notes='solve: size mismatch rejected; the Cholesky route is taken exactly when the symmetry / positive-diagonal test passes and no pivot is non-positive, and then the '
-                        'result satisfies L L^T = A, L y = b, L^T x = y; otherwise the result satisfies the pivoted-LU solve equations'))
+                        'result satisfies L L^T = A, L y = b, L^T x = y and therefore (theorem_chol_solves, over the reals) every row of S x = b for the symmetric matrix S given by the lower triangle of A; '
+                        'otherwise the result satisfies the pivoted-LU solve equations and (theorem_lu_solves) every row of A x = b when no pivot is zero'))
 
 # ---------------------------------------------------------------- layout conversions and the identity
 UNWRAP_IM = c15.UNWRAP_IS_MATRIX
@@ -240,7 +351,7 @@ SYS_BODY_END = ('assert forall|s: int| 0 <= s < i + 1 implies #[trigger] solved_
 solve_sys = Fn(U + 'solve_sys', ret='x', level='L1', valid=SYSV, panics={1: 'REJECT', 2: 'REJECT', 3: 'DEAD', 4: 'DEAD'}, rewrites=[UNWRAP_SA, UNWRAP_MB,
                ('if is_positive_definite(a) {', 'if ({ let t_ = is_positive_definite(a); proof { pd_ = t_; } t_ }) {', 'R31: the routing test bound to a ghost name'),
                ('cholesky_solve(&l, &b[(i * n)..((i + 1) * n)])', '({ proof { assert(chol_post(a@, chol, n as int)); } let x_ = cholesky_solve(&l, &b[(i * n)..((i + 1) * n)]); '
-                'proof { assert(chol_rows(a@, l@, n as int, n as int)); assert(solved_by_route(a@, n as int, colv(b0, n as int, nsys as int, i as int), x_@)); } x_ })', 'R31'),
+                'proof { assert(chol_rows(a@, l@, n as int, n as int)); lemma_chol_route_exact(a@, l@, n as int, colv(b0, n as int, nsys as int, i as int), x_@); assert(solved_by_route(a@, n as int, colv(b0, n as int, nsys as int, i as int), x_@)); } x_ })', 'R31'),
                ('lu_solve(&lu, &piv, &b[(i * n)..((i + 1) * n)])', '({ let x_ = lu_solve(&lu, &piv, &b[(i * n)..((i + 1) * n)]); '
                 'proof { assert(lu_solved(lu@, n as int, piv@, colv(b0, n as int, nsys as int, i as int), x_@)); lemma_lu_route_exact(a@, lu@, piv@, n as int, colv(b0, n as int, nsys as int, i as int), x_@); assert(solved_by_route(a@, n as int, colv(b0, n as int, nsys as int, i as int), x_@)); } x_ })', 'R31')],
                requires=['C01.solve_sys.machine:: 0 < a@.len() <= 0x7fff_ffff && b@.len() <= 0x7fff_ffff'],
